@@ -193,7 +193,10 @@ class Server:
 
     def stderr_tail(self):
         time.sleep(0.05)
-        return b''.join(self.errbuf).decode('utf-8', 'replace')[-300:].strip()
+        t = b''.join(self.errbuf).decode('utf-8', 'replace')
+        k = max(t.find('panicked at'), t.find('has overflowed its stack'))
+        k = t.rfind('\n', 0, k) + 1 if k >= 0 else max(0, len(t) - 300)
+        return t[k:k + 300].strip()
 
     def send(self, obj):
         b = json.dumps(obj, ensure_ascii=False).encode('utf-8')
@@ -945,6 +948,10 @@ def standin_lsp_positions(tier, seed):
         for i in range(40 if thorough else 8):
             mutated.append(('arbitrary UTF-8 #%d' % i, arbitrary_utf8(rnd)))
         scratch = [(lab, t) for lab, t in specials + mutated if '\n%%%%\n' not in t]
+        rnd.shuffle(scratch)             # so that the texts a scratch uri holds one after the other are unrelated
+        # each scratch uri starts with a long valid text with many bindings: whatever the server keeps of an earlier text shows on the shorter texts behind it
+        mid = [i for i in range(len(rels)) if 1200 < len(alltexts[i]) < 3000]
+        scratch = [('first text of a scratch uri: ' + rels[i], alltexts[i]) for i in rnd.sample(mid, 3)] + scratch
         for i, (lab, t) in enumerate(scratch):
             docs.append((lab, 'file://' + os.path.join(root, 'scratch', 'm%d.ucg' % (i % 3)), t, False))
         bound = ('one `ucg lsp` process on a copy of integration_tests/ std/ examples/; %d documents: %d of the %d shipped .ucg files at their own paths%s, %d hand-made texts (empty, '
